@@ -1,7 +1,8 @@
 """Shared helpers for the libcnb-test properties (C16, C17): reading the stand-in's command log."""
 import re
 
-FIXTURE_LISTING = [["app.txt", list(b"app")], ["sub/", []], ["sub/inner.txt", list(b"inner")]]
+# link.txt is a symlink to app.txt: listed (and copied) with the content it leads to
+FIXTURE_LISTING = [["app.txt", list(b"app")], ["link.txt", list(b"app")], ["sub/", []], ["sub/inner.txt", list(b"inner")]]
 NAME_RE = re.compile(r"^libcnbtest_[a-z]{12}$")
 
 RUN_FLAGS = {"--name": True, "--detach": False, "--rm": False, "--platform": True, "--entrypoint": True,
